@@ -84,6 +84,9 @@ func (n *NodeManagementUseCaseDataType) AddUseCaseSupport(
 	nmMux.Lock()
 	defer nmMux.Unlock()
 
+	// the caller may reuse its slice, keep a copy
+	scenarios = append([]UseCaseScenarioSupportType(nil), scenarios...)
+
 	useCaseSupport := UseCaseSupportType{
 		UseCaseName:                &useCaseName,
 		UseCaseVersion:             &useCaseVersion,
